@@ -49,20 +49,20 @@ Expect(class, got, want) == IF got = want THEN TRUE
                             ELSE PrintT(<<"MISMATCH", class, l, got, want>>)
 
 Consume == l <= Len(Trace) /\ l' = l + 1
-Seq == UNCHANGED <<pend, h0, bad>>
+SeqStep == UNCHANGED <<pend, h0, bad>>
 
 (* ------------------------------ 1. sequential ------------------------------ *)
-TReset == Consume /\ Ev.a = "Reset" /\ present' = [a \in Addr |-> None] /\ Seq
-TJoin  == Consume /\ Ev.a = "Join" /\ Join(Ev.addr, Ev.node) /\ Seq
+TReset == Consume /\ Ev.a = "Reset" /\ present' = [a \in Addr |-> None] /\ SeqStep
+TJoin  == Consume /\ Ev.a = "Join" /\ Join(Ev.addr, Ev.node) /\ SeqStep
                   /\ Expect("Join-added", B2N(Ev.added), B2N(Added(Ev.addr)))
-TLeave == Consume /\ Ev.a = "Leave" /\ Leave(Ev.addr) /\ Seq
+TLeave == Consume /\ Ev.a = "Leave" /\ Leave(Ev.addr) /\ SeqStep
                   /\ Expect("Leave-removed", B2N(Ev.removed), B2N(Removed(Ev.addr)))
-TEmpty == Consume /\ Ev.a = "Empty" /\ Empty /\ Seq
+TEmpty == Consume /\ Ev.a = "Empty" /\ Empty /\ SeqStep
 (* observation of every read after a call: state unchanged *)
 TObs ==
   /\ Consume
   /\ Ev.a = "Obs"
-  /\ UNCHANGED present /\ Seq
+  /\ UNCHANGED present /\ SeqStep
   /\ Expect("Len", Ev.len, NLen)
   /\ \A x \in Addr :
         /\ Expect("Exists", B2N(Ev.exists[x]), B2N(Exists(x)))
@@ -143,7 +143,7 @@ ASSUME TLCSet(1, 0) /\ TLCSet(2, {}) /\ TLCSet(3, {})
 ASSUME \A k \in 1..Len(Trace) : Trace[k].a = "HReset" => TLCSet(100 + Trace[k].i, 0)
 (* furthest line reached without giving up: of the whole file, and of each concurrent history *)
 HighWater == /\ bad \/ TLCSet(1, IF l > TLCGet(1) THEN l ELSE TLCGet(1))
-             /\ \/ bad \/ h0 = 0
+             /\ \/ bad \/ h0 = 0 \/ Trace[h0].a # "HReset"
                 \/ LET r == 100 + Trace[h0].i IN TLCSet(r, IF l > TLCGet(r) THEN l ELSE TLCGet(r))
 (* sequential recordings: the whole file must have been consumed *)
 Accepted == \/ TLCGet(1) = Len(Trace) + 1
